@@ -17,7 +17,7 @@ from vlib import tlc, tlaval, gorun, core
 PROPS = ['C14']
 HARNESS = ['zz_vs_sched.go', 'zz_lifecycle_test.go']
 INSTR_GATE = {"files": {"session.go": {"funcs": ["Session.Close"]}}}
-SLUGS = ['no-close-callback-when-busy', 'open-nil-nil', 'flush-ok-after-close']
+SLUGS = ['no-close-callback-when-busy', 'open-nil-nil', 'flush-nil-after-close', 'write-after-teardown-faults']
 
 INTERNAL = {'ExitSetErr', 'CloseCAS', 'CloseErr', 'CloseNotify', 'CloseChan', 'ClosePost', 'DeferredClose', 'LNext', 'TdConn',
             'TdTable', 'TdStream', 'TdWait', 'TdBm', 'TdQueue', 'SendPut'}
@@ -244,7 +244,9 @@ WITNESS = {
     'no-close-callback-when-busy': dict(streams=2, cb=[2], steps=[('PeerSend', 2, ''), ('Events', 0, ''), ('PeerDies', 0, ''),
                                                                  ('Events', 0, ''), ('Lambdas', 0, ''), ('CbRelease', 2, '')]),
     # Session.Close has been called (IsClosed() is true, streams notified) but the teardown lambda has not run yet
-    'flush-ok-after-close': dict(streams=1, cb=[], steps=[('CloseCall', 0, 'c1'), ('SendCheck', 1, '')]),
+    'flush-nil-after-close': dict(streams=1, cb=[], steps=[('CloseCall', 0, 'c1'), ('SendCheck', 1, '')]),
+    # both ends closed and torn down, then a write into the BufferWriter of a stream: SIGSEGV (staged in a child process)
+    'write-after-teardown-faults': dict(streams=1, cb=[], gate='write-after-teardown', steps=[]),
     'open-nil-nil': dict(streams=1, cb=[], gate='open-in-close-window', steps=[]),
 }
 
@@ -276,7 +278,7 @@ def run(prop, tier, seed, replay=None):
         job = {'mode': rep['mode'], 'schedules': [rep['schedule']], 'known': listed, 'workers': 1, 'wait_ms': wait_ms}
         ck.cov['evaluations'] = 1
         ck.cov['distinct_nontrivial'] = 1
-        res = harness(ck, job, known, INSTR_GATE if rep.get('gate') else None, 'replay')
+        res = harness(ck, job, known, INSTR_GATE if rep.get('gate') == 'open-in-close-window' else None, 'replay')
         if res is not None:
             report(ck, res, job, known, counts)
             for d in counts['drift']:
@@ -381,10 +383,10 @@ def run(prop, tier, seed, replay=None):
     # ---- 3. witnesses of the known-finding classes on the real code
     for slug, wit in WITNESS.items():
         sched = {'name': 'witness-' + slug, 'role': 'server' if slug == 'no-close-callback-when-busy' else 'client', 'mem': 'file',
-                 'streams': wit['streams'], 'cb': wit['cb'], 'gate': wit.get('gate', ''),
+                 'streams': wit['streams'], 'cb': wit['cb'], 'gate': wit.get('gate', ''), 'raw': True,
                  'steps': [{'a': a, 's': s, 't': t} for a, s, t in wit['steps']]}
         job = {'mode': 'manual', 'schedules': [sched], 'known': listed, 'workers': 1, 'wait_ms': wait_ms}
-        results = harness(ck, job, known, INSTR_GATE if wit.get('gate') else None, 'witness ' + slug)
+        results = harness(ck, job, known, INSTR_GATE if wit.get('gate') == 'open-in-close-window' else None, 'witness ' + slug)
         if results is None:
             continue
         r = results[0]
